@@ -62,6 +62,24 @@ theorem C08_write_progress (cap : Nat) (hc : 0 < cap) (ops : List AnyOp)
     h.sys.bw = .raw → ∃ n, (h.sys.pop (.write bs)).2.1 = .wrote n ∧ 1 ≤ n ∧ n ≤ bs.length :=
   pipe_write_progress cap hc ops hops bs hbs
 
+/-- `write_vectored` (std's default: a `write` of the first non-empty slice) is covered by all of
+the above, being a `write`; and whatever number of bytes it reports, those bytes are the first
+so many of the slices' concatenation — the contract a caller re-offering the rest relies on. -/
+theorem C08_write_vectored_accepts_a_prefix (s : Sys) (slices : List Bytes) (n : Nat)
+    (hn : n ≤ (firstNonEmpty slices).length) :
+    s.writeVectored slices = s.pop (.write (firstNonEmpty slices)) ∧
+    (firstNonEmpty slices).take n = slices.flatten.take n := by
+  refine ⟨rfl, ?_⟩
+  induction slices with
+  | nil => simp [firstNonEmpty]
+  | cons a rest ih =>
+    by_cases ha : a = []
+    · subst ha
+      simp only [firstNonEmpty, if_true, List.flatten_cons, List.nil_append] at hn ⊢
+      exact ih hn
+    · simp only [firstNonEmpty, ha, if_false, List.flatten_cons] at hn ⊢
+      rw [List.take_append_of_le_length hn]
+
 /-- Non-vacuity: chunk size 4, write 5 bytes (4 accepted), poll, write the fifth, flush, drop,
 drain. -/
 example :
